@@ -2,7 +2,8 @@
 from pyvc.api import (Const, DictOf, Enum, Int, Items, ListOf, Loop, Named, Obj, Opt, Real, Ref,
                       Str, TupleOf, contract, harness, implies, forall)
 
-BIND = {"peoe": "pdb2pqr.ligand.peoe", "equilibrate": "pdb2pqr.ligand.peoe:equilibrate"}
+BIND = {"peoe": "pdb2pqr.ligand.peoe", "equilibrate": "pdb2pqr.ligand.peoe:equilibrate",
+        "RADII": "pdb2pqr.ligand:RADII", "Mol2Atom": "pdb2pqr.ligand.mol2:Mol2Atom"}
 
 TYPES = ("H", "C.3", "O.co2", "N.4", "CL")
 
@@ -78,3 +79,60 @@ for _name, _g in SHAPES.items():
         name=f"equilibrate.{_name}",
         budget=40000,
     )
+
+
+# ---------------------------------------------------------------- radii: the documented tables, most specific key first
+# assign_parameters() passes RADII["zap9"] as primary and RADII["bondi"] as backup table (the module's own comment:
+# "the most specific Sybyl atom type should be used first and then the generic element").  Type and element are symbolic
+# strings; the tables are the real module constants.
+from pyvc.api import harness as _harness  # noqa: E402
+
+
+
+def table_values(d):
+    return [d[k] for k in d]
+
+
+@_harness("C16", params={"atom": Obj("pdb2pqr.ligand.mol2:Mol2Atom", type=Str, element=Str, radius=Const(None))},
+          requires=[],
+          ensures=[
+              "atom.radius > 0",
+              # from the documented tables, never invented
+              "exists(table_values(RADII['zap9']) + table_values(RADII['bondi']), lambda v: atom.radius == v)",
+              # most specific first: the atom type in the primary table, then the element there, then the backup table
+              "implies(atom.type in RADII['zap9'], atom.radius == RADII['zap9'][atom.type])",
+              "implies(atom.type not in RADII['zap9'] and atom.element in RADII['zap9'], atom.radius == RADII['zap9'][atom.element])",
+              "implies(atom.type not in RADII['zap9'] and atom.element not in RADII['zap9'] and atom.type in RADII['bondi'], "
+              "atom.radius == RADII['bondi'][atom.type])",
+              "implies(atom.type not in RADII['zap9'] and atom.element not in RADII['zap9'] and atom.type not in RADII['bondi'], "
+              "atom.radius == RADII['bondi'][atom.element])",
+          ],
+          raises={"KeyError": "atom.type not in RADII['zap9'] and atom.element not in RADII['zap9'] and "
+                              "atom.type not in RADII['bondi'] and atom.element not in RADII['bondi']"},
+          name="assign_radius.tables", native=False)
+def radius_from_tables(atom):
+    atom.assign_radius(RADII["zap9"], RADII["bondi"])
+    return atom
+
+
+# assign_parameters(): every atom gets a radius from (zap9, bondi) and its charge starts from its formal charge, then
+# the equilibration (conserving the sum, see above) is run over exactly the molecule's atoms
+def MATOM(nm):
+    return Named(nm, Obj("pdb2pqr.ligand.mol2:Mol2Atom", type=Str, element=Str, radius=Const(None), charge=Real, formal_charge=Real))
+
+
+contract(
+    "pdb2pqr.ligand.mol2:Mol2Molecule.assign_parameters", "C16",
+    params={"self": Obj("pdb2pqr.ligand.mol2:Mol2Molecule", atoms=DictOf(("C1", MATOM("m0")), ("O1", MATOM("m1"))))},
+    requires=[],
+    ensures=[
+        "len(calls_of('assign_radius')) == 2",
+        "forall(calls_of('assign_radius'), lambda c: c.args['primary_dict'] is RADII['zap9'] and c.args['secondary_dict'] is RADII['bondi'])",
+        "calls_of('assign_radius')[0].args['self'] is m0 and calls_of('assign_radius')[1].args['self'] is m1",
+        # at the moment equilibration starts the charges are the formal charges, and it gets every atom once
+        "len(calls_of('equilibrate')) == 1",
+        "m0.charge is m0.formal_charge and m1.charge is m1.formal_charge",
+    ],
+    trace={"pdb2pqr.ligand.mol2:Mol2Atom.assign_radius": None, "pdb2pqr.ligand.peoe:equilibrate": None},
+    name="assign_parameters", native=False,
+)
